@@ -186,6 +186,59 @@ fn main() {
             }
             println!("RESULT enum:zinc-roundtrip-scalars {} scalar values survive Zinc encode/decode", vals.len());
         }
+        // ---- C15 enumerator (exhaustive over the database): every identifier of every unit looks up a unit that has that
+        // identifier and equals the unit looked up by its first name; a Number with that unit survives Zinc and Hayson
+        "enum:units-roundtrip" => {
+            use libhaystack::encoding::zinc::encode::ToZinc;
+            use libhaystack::units::get_unit;
+            let mut n = 0;
+            for (id, unit) in libhaystack::units::units_generated::UNITS.iter() {
+                let looked = get_unit(id);
+                let ok_lookup = matches!(looked, Some(u) if u.ids.iter().any(|i| i == id) && std::ptr::eq(u, *unit));
+                if !ok_lookup { println!("RESULT enum:units-roundtrip lookup of {id:?} gives {:?}", looked.map(|u| u.ids.clone())); std::process::exit(3); }
+                for other in unit.ids.iter() {
+                    if get_unit(other).map(|u| std::ptr::eq(u, *unit)) != Some(true) {
+                        println!("RESULT enum:units-roundtrip identifier {other:?} of unit {:?} looks up {:?}", unit.ids, get_unit(other).map(|u| u.ids.clone()));
+                        std::process::exit(3);
+                    }
+                }
+                let v = Value::make_number_unit(2.5, unit);
+                let z = v.to_zinc_string().unwrap_or_default();
+                let back = from_str(&z);
+                if !matches!(&back, Ok(Value::Number(b)) if b.unit == Some(*unit) && b.value == 2.5) {
+                    println!("RESULT enum:units-roundtrip unit {:?}: zinc {z:?} decodes to {back:?}", unit.ids); std::process::exit(3);
+                }
+                let j = serde_json::to_string(&v).unwrap_or_default();
+                let back = serde_json::from_str::<Value>(&j);
+                if !matches!(&back, Ok(Value::Number(b)) if b.unit == Some(*unit) && b.value == 2.5) {
+                    println!("RESULT enum:units-roundtrip unit {:?}: hayson {j} decodes to {back:?}", unit.ids); std::process::exit(3);
+                }
+                n += 1;
+            }
+            println!("RESULT enum:units-roundtrip {n} identifiers: lookup, Zinc and Hayson round trips agree");
+        }
+        // ---- C05 reader numbers: raw bytes of the harness inputs (which, value) -> the JSON spelling serde_json would hand over
+        "json-visit" => {
+            let which = unhex(&args[2])[0];
+            let raw = unhex(&args[3]);
+            let mut b8 = [0u8; 8]; for (i, x) in raw.iter().enumerate().take(8) { b8[i] = *x; }
+            let (text, want) = match which {
+                0 => { let x = raw[0] as i8; (format!("{x}"), x as f64) }
+                1 => { let x = i16::from_le_bytes([raw[0], raw[1]]); (format!("{x}"), x as f64) }
+                2 => { let x = i32::from_le_bytes([raw[0], raw[1], raw[2], raw[3]]); (format!("{x}"), x as f64) }
+                3 => { let x = i64::from_le_bytes(b8); (format!("{x}"), x as f64) }
+                4 => { let x = raw[0]; (format!("{x}"), x as f64) }
+                5 => { let x = u16::from_le_bytes([raw[0], raw[1]]); (format!("{x}"), x as f64) }
+                6 => { let x = u32::from_le_bytes([raw[0], raw[1], raw[2], raw[3]]); (format!("{x}"), x as f64) }
+                7 => { let x = u64::from_le_bytes(b8); (format!("{x}"), x as f64) }
+                _ => { let x = f64::from_le_bytes(b8); (format!("{x:e}"), x) }
+            };
+            if !want.is_finite() { println!("RESULT json-visit {want} has no JSON number spelling; not replayable"); return; }
+            let got = serde_json::from_str::<Value>(&text);
+            let same = matches!(&got, Ok(Value::Number(n)) if n.unit.is_none() && n.value == want);
+            println!("RESULT json-visit {text} -> {got:?} expected {want:e} same={same}");
+            if !same { std::process::exit(3); }
+        }
         // ---- C06: RFC 3339 text -> DateTime keeps the instant (or is rejected); exit 3 = different instant
         "rfc3339" => {
             let text = &args[2];
